@@ -18,7 +18,8 @@ class NotEvaluable(Exception):
 class Point:
     """An assignment: input tensors (by name, lazily random), symbols, index variables, sizes, opaque values."""
 
-    def __init__(self, rng: random.Random, nrows: int = 3, positive_syms=(), sizes: Dict = None, integer_inputs=False):
+    def __init__(self, rng: random.Random, nrows: int = 3, positive_syms=(), sizes: Dict = None, integer_inputs=False,
+                 input_fn=None):
         self.rng = rng
         self.nrows = nrows
         self.inputs: Dict[Tuple[str, tuple], float] = {}
@@ -28,11 +29,15 @@ class Point:
         self.opq: Dict[Expr, float] = {}
         self.positive_syms = set(positive_syms)
         self.integer_inputs = integer_inputs
+        self.input_fn = input_fn
 
     def inp(self, name, idx):
         k = (name, idx)
         if k not in self.inputs:
-            if self.integer_inputs:
+            v = self.input_fn(self, name, idx) if self.input_fn is not None else None
+            if v is not None:
+                self.inputs[k] = v
+            elif self.integer_inputs:
                 self.inputs[k] = float(self.rng.randint(-4, 4))
             else:
                 self.inputs[k] = self.rng.choice([-1, 1]) * self.rng.uniform(0.1, 3.0)
@@ -201,12 +206,20 @@ def _close(a, b, tol):
     return abs(a - b) <= tol * max(1.0, abs(a), abs(b))
 
 
+def bars_input(pt: "Point", name, idx):
+    """birth/death pairs with death > birth (positive bar length)"""
+    if len(idx) == 2 and idx[1] == 1:
+        return pt.inp(name, (idx[0], 0)) + pt.rng.uniform(0.1, 2.0)
+    return None
+
+
 def equivalent(a: Expr, b: Expr, trials: int = 24, seed: int = 0, tol: float = 1e-9, positive_syms=(),
-               nrows: int = 3, integer_inputs=False) -> Tuple[Optional[bool], Optional[dict]]:
+               nrows: int = 3, integer_inputs=False, input_fn=None) -> Tuple[Optional[bool], Optional[dict]]:
     """(True, None) equal on all trials; (False, witness) differ; (None, reason) not evaluable"""
     rng = random.Random(seed * 7919 + 17)
     for k in range(trials):
-        pt = Point(rng, nrows=nrows, positive_syms=positive_syms, integer_inputs=integer_inputs and k % 2 == 0)
+        pt = Point(rng, nrows=nrows, positive_syms=positive_syms, integer_inputs=integer_inputs and k % 2 == 0,
+                   input_fn=input_fn)
         try:
             va = ev(a, pt)
             vb = ev(b, pt)
